@@ -286,11 +286,14 @@ def main(prop: str, tier: str = "quick") -> int:
                 violations.append(rec)
     os.makedirs(os.path.join(HERE, "replays"), exist_ok=True)
     known_out = []
+    replay_cache = {}  # one run per replay script (several obligation ids of one finding share a script)
     for fid, (f, recs) in known_hit.items():
         ok = True
         detail = ""
         if f.get("replay"):
-            rc, outp = run_replay_script(os.path.join(HERE, f["replay"]))
+            if f["replay"] not in replay_cache:
+                replay_cache[f["replay"]] = run_replay_script(os.path.join(HERE, f["replay"]))
+            rc, outp = replay_cache[f["replay"]]
             ok = rc == 1
             detail = outp[-300:]
         if ok:
